@@ -634,13 +634,13 @@ func wordsOf(m *model1024) []uint64 {
 var Part64 = &vkit.Part[Case64]{
 	Property: Property, Name: "bit64",
 	Rule:  "rapid: 64-bit word from a mixture (0, all ones, single bit, popcount = threshold-1/0/+1, sparse, dense, random) x threshold x n (neg,0,1,Len-1,Len,Len+1,big) x pos x add x slack, plus a Set/Unset script; all 10 Iter*/RIter* and 8 GetN* of the 64-bit layer run at the drawn threshold and at 9 against a member list. Non-trivial: 0 < count < Len (cut in the middle) or popcount within +-1 of the threshold; distinct = distinct case JSON",
-	Quick: 20000, Thorough: 150000,
+	Quick: 80000, Thorough: 150000,
 	Gen: Gen64, Exec: Exec64,
 }
 
 var Part1024 = &vkit.Part[Case1024]{
 	Property: Property, Name: "bit1024",
 	Rule:  "rapid: two 1024-bit maps as 16 words from the same mixture (or empty/full/few words) + a Set/Unset script over in-range, negative, 1023/1024 and huge indices (int16 and int32 entry points) x threshold x n x pos x add x slack; Set/Unset, Len/NLen, And/Or/Reverse/OrThenReverse/Equal, all 8 Iter*/RIter* and 6 GetN* compared with a [1024]bool model at the drawn threshold and at 9. Non-trivial: 0 < count < Len or some word's popcount within +-1 of the threshold; distinct = distinct case JSON",
-	Quick: 8000, Thorough: 60000,
+	Quick: 32000, Thorough: 60000,
 	Gen: Gen1024, Exec: Exec1024,
 }
